@@ -94,7 +94,10 @@ class TaskWorld:
                 store[key] = held
         init = it.call_fn("SimInit", None, "with_num_threads", [I(1, "usize")])
         for i, m in enumerate(b["models"]):
-            init = it.call_fn("SimInit", None, "add_model", [init, Opaque("Model", id=i), self.mailboxes[i], Opaque("String", s=m["name"])])
+            if m.get("parent") is None:
+                # sub-models (m['parent'] = index of the parent) are added by the parent's ProtoModel::build through
+                # BuildContext::add_submodel (see the `build` model below)
+                init = it.call_fn("SimInit", None, "add_model", [init, Opaque("Model", id=i), self.mailboxes[i], Opaque("String", s=m["name"])])
         self.cur_ctx = ("init", 0)
         self.log.append(("cmd-begin", "init"))
         r = it.call_fn("SimInit", None, "init", [init, mk_time(0)])
@@ -248,12 +251,22 @@ class TaskWorld:
             return ok(unit())
 
         def build(it, cal, args):
-            return args[0]
+            # ProtoModel::build of a scripted model: adds its sub-models (in index order) through the real
+            # BuildContext::add_submodel, which builds the qualified name and goes through the same add_model
+            proto, bcx = args[0], args[1]
+            me = proto.data["id"]
+            for c, m in enumerate(w.bench["models"]):
+                if m.get("parent") == me:
+                    it.call_fn("BuildContext", None, "add_submodel", [bcx, Opaque("Model", id=c), w.mailboxes[c], Opaque("String", s=m["name"])])
+            return proto
 
         def model_init(it, cal, args):
             m = args[0]
+            # the name the model sees in its context (Context::name): first field of the real Context value
+            cxv = deref_all(it, args[1])
+            name = _s(cxv.fields[0]) if isinstance(cxv, Agg) and cxv.fields and isinstance(cxv.fields[0], Opaque) else None
             return Opaque("ScriptFut", kind="init", model=m.data["id"], hid=None, script=w.bench.get("init", {}).get(str(m.data["id"]), []), pc=0, cur=None,
-                          result=Agg("InitializedModel", [m]), started=False, arg=None)
+                          result=Agg("InitializedModel", [m]), started=False, arg=None, cxname=name)
 
         def input_call(it, cal, args):
             f, model, arg = args[0], args[1], args[2]
@@ -278,7 +291,7 @@ class TaskWorld:
                 d["hid"] = w.next_hid
                 w.next_hid += 1
                 if d["kind"] == "init":
-                    w.log.append(("init", d["model"], d["hid"]))
+                    w.log.append(("init", d["model"], d["hid"], d.get("cxname")))
                 else:
                     w.log.append(("handle", d["model"], d["port"], d["arg"], d["hid"], d["kind"]))
             ctx = ("h", d["hid"])
@@ -406,6 +419,9 @@ class TaskWorld:
             "<FilterFn as Clone>::clone": clone_tok, "<ReplyMapFn as Clone>::clone": clone_tok,
             "<MapFn as Fn>::call": map_call, "<FilterFn as Fn>::call": filter_call, "<ReplyMapFn as Fn>::call": reply_map,
             "<Address as Into>::into": lambda it, cal, args: args[0] if isinstance(args[0], Agg) else it.call_fn("Address", "Clone", "clone", [args[0]]),
+            "<String as ToString>::to_string": lambda it, cal, args: Opaque("String", s=_s(deref_all(it, args[0]))),
+            "<&str as Into>::into": lambda it, cal, args: Opaque("String", s=_s(deref_all(it, args[0]))),
+            "<String as Add>::add": lambda it, cal, args: Opaque("String", s=_s(deref_all(it, args[0])) + _s(deref_all(it, args[1]))),
             "<String as Into>::into": lambda it, cal, args: args[0],
             "<String as Clone>::clone": lambda it, cal, args: deref_all(it, args[0]),
             "<NoClock as Clock>::synchronize": lambda it, cal, args: Agg("SyncStatus", [], variant="Synchronized"),
